@@ -63,6 +63,41 @@ def _parse_args(args: Sequence[str]) -> argparse.Namespace:
     return parser.parse_args(args)
 
 
+def _string_values(source: str) -> Sequence[str | bytes]:
+    """Values of all string and bytes literals, except for docstrings"""
+    root = core.parse(source)
+    docstrings = {
+        scope.body[0].value
+        for scope in core.walk(
+            root, (ast.Module, ast.ClassDef, ast.FunctionDef, ast.AsyncFunctionDef)
+        )
+        if scope.body
+        and core.match_template(scope.body[0], ast.Expr(value=ast.Constant(value=str)))
+    }
+    return [
+        node.value
+        for node in core.walk(root, ast.Constant(value=(str, bytes)))
+        if node not in docstrings
+    ]
+
+
+def _clean_whitespace(source: str, *steps) -> str:
+    """Apply whitespace clean-ups to the text, except those that would alter a string literal.
+
+    The clean-ups work on the raw text, and do not know about strings that contain tabs, or that
+    span lines with trailing whitespace or blank lines."""
+    for step in steps:
+        cleaned = step(source)
+        if core.is_valid_python(source) and (
+            not core.is_valid_python(cleaned) or _string_values(source) != _string_values(cleaned)
+        ):
+            continue
+
+        source = cleaned
+
+    return source
+
+
 def _multi_run_fixes(source: str, preserve: Collection[str]) -> str:
     """Fixes that should run over and over until convergence.
 
@@ -151,7 +186,7 @@ def _multi_run_fixes(source: str, preserve: Collection[str]) -> str:
 
     source = fixes.remove_duplicate_functions(source, preserve=preserve)
     source = fixes.fix_duplicate_imports(source)
-    source = fixes.fix_too_many_blank_lines(source)
+    source = _clean_whitespace(source, fixes.fix_too_many_blank_lines)
 
     return source
 
@@ -167,9 +202,9 @@ def format_code(
     if re.findall(r"# pyrefact: skip_file", source):
         return source
 
-    source = source.expandtabs(4)
-    source = rmspace.format_str(source)
-    source = fixes.fix_too_many_blank_lines(source)
+    source = _clean_whitespace(
+        source, lambda text: text.expandtabs(4), rmspace.format_str, fixes.fix_too_many_blank_lines
+    )
 
     if not source.strip():
         return source
@@ -266,7 +301,7 @@ def format_code(
     source = fixes.sort_imports(source)
 
     source = fixes.fix_line_lengths(source, max_line_length=max_line_length)
-    source = rmspace.format_str(source)
+    source = _clean_whitespace(source, rmspace.format_str)
 
     if minimum_indent > 0:
         source = textwrap.indent(source, " " * minimum_indent)
